@@ -1,6 +1,7 @@
 package main
 
 import (
+	"reflect"
 	"fmt"
 	"os"
 	"os/exec"
@@ -49,6 +50,7 @@ func thorough(p *core.Prog, pr *rules.Property, c *core.Ctx, verif, repo string,
 					c2.Unk("internal", "checker-panic@"+cfg, "", fmt.Sprint(r))
 				}
 			}()
+			c2.Importing = map[uintptr]bool{reflect.ValueOf(pr.Run).Pointer(): true}
 			pr.Run(c2)
 		}()
 		known := map[string]bool{}
